@@ -70,6 +70,27 @@ func main() {
 		}
 	}
 	replace := map[string]string{}
+	// VERIF_MUTANT_DIR: a directory mirroring /repo's layout whose files stand in
+	// for /repo's (used to try property-breaking edits without touching /repo).
+	mutant := os.Getenv("VERIF_MUTANT_DIR")
+	srcOf := func(p string) string { return p }
+	if mutant != "" {
+		mutAbs, _ := filepath.Abs(mutant)
+		filepath.Walk(mutAbs, func(p string, info os.FileInfo, err error) error {
+			if err == nil && !info.IsDir() && strings.HasSuffix(p, ".go") {
+				rel, _ := filepath.Rel(mutAbs, p)
+				replace[filepath.Join(repo, rel)] = p
+			}
+			return nil
+		})
+		srcOf = func(p string) string {
+			if m, ok := replace[p]; ok {
+				return m
+			}
+			return p
+		}
+		fmt.Printf("mutant dir %s: %d files\n", mutAbs, len(replace))
+	}
 	for pkg, rw := range rewrites {
 		ents, err := os.ReadDir(filepath.Join(repo, pkg))
 		if err != nil {
@@ -82,7 +103,7 @@ func main() {
 			}
 			src := filepath.Join(repo, pkg, name)
 			fset := token.NewFileSet()
-			af, err := parser.ParseFile(fset, src, nil, parser.ParseComments)
+			af, err := parser.ParseFile(fset, srcOf(src), nil, parser.ParseComments)
 			if err != nil {
 				fmt.Fprintln(os.Stderr, "parse error:", err)
 				os.Exit(1)
